@@ -61,6 +61,22 @@ fn corrupt(
     let garbage = |rng: &mut Rng| -> Vec<u8> { rng.pick(&[&b"x#y"[..], b"?", b"+1", b"~~"]).to_vec() };
     match &tok.kind {
         TokKind::Text | TokKind::Name if cfg.kind == PKind::Btor2 || matches!(tok.kind, TokKind::Text) => None,
+        TokKind::AigComment => {
+            // (lo == hi == usize::MAX - k) encodes "expected exactly at byte k of the new token text",
+            // which may be on a later line than the token start
+            if rng.chance(1, 2) && old.len() >= 2 && old.ends_with(b"\n") {
+                // missing final newline: reported at the end of the input
+                let t = old[..old.len() - 1].to_vec();
+                let k = t.len();
+                Some((t, usize::MAX - k, usize::MAX - k, "comment without final newline"))
+            } else {
+                let mut t = old.to_vec();
+                let at = rng.below(t.len() + 1);
+                let at = (0..=at).rev().find(|&i| std::str::from_utf8(&t[..i]).is_ok()).unwrap_or(0);
+                t.insert(at, 0xff);
+                Some((t, usize::MAX - at, usize::MAX - at, "invalid utf-8 in comment"))
+            }
+        }
         TokKind::Name => {
             // invalid UTF-8 inside an AIGER symbol name
             let mut t = old.to_vec();
@@ -228,7 +244,14 @@ fn gen_case(rng: &mut Rng) -> LocCase {
                         binary = Some((a, (e as isize + delta) as usize));
                     }
                 }
-                expect = Some((line, col + lo, col + hi));
+                if lo > usize::MAX / 2 {
+                    // absolute position inside the new token text
+                    let k = usize::MAX - lo;
+                    let (l2, c2) = visible_line_col(&bytes, tok.start + k, binary);
+                    expect = Some((l2, c2, c2));
+                } else {
+                    expect = Some((line, col + lo, col + hi));
+                }
                 corruption = format!("{name}: {:?} -> {:?} at offset {}", show_bytes(old), show_bytes(&new), tok.start);
                 break;
             }
@@ -331,6 +354,12 @@ impl Prop for C08 {
         st.add("fault.short_read", s.c.short_reads);
         st.add("fault.interrupted", s.c.interrupted);
         st.hit(&format!("parser.{}", case.base.cfg.kind.name()));
+        if case.expect.is_some() {
+            st.hit(&format!(
+                "corruption.{}",
+                case.corruption.split(':').next().unwrap_or("?")
+            ));
+        }
         let pname = case.base.cfg.kind.name();
         let mut violation = None;
         let mut nontrivial = false;
